@@ -91,13 +91,19 @@ def escape_check(workers=16, n_random=3000, seed=0):
     bad_multi = []
     for _ in range(n_random):
         s = "".join(rnd.choice(alpha) for _ in range(rnd.randint(0, 8)))
-        if Pregex._Pregex__escape(s) != _esc_spec(s):
+        try:
+            if Pregex._Pregex__escape(s) != _esc_spec(s):
+                bad_multi.append(s)
+                if len(bad_multi) > 5:
+                    break
+                continue
+            p = Pregex(s)
+            if not (p.is_exact_match(s) and (s == "" or not p.is_exact_match(s + s[-1])) and (len(s) < 1 or not p.is_exact_match(s[:-1]))):
+                bad_multi.append("exact-match:" + s)
+        except BaseException as e:          # RecursionError, re.error ...: the literal is not even accepted
             bad_multi.append(s)
             if len(bad_multi) > 5:
                 break
-        p = Pregex(s)
-        if not (p.is_exact_match(s) and (s == "" or not p.is_exact_match(s + s[-1])) and (len(s) < 1 or not p.is_exact_match(s[:-1]))):
-            bad_multi.append("exact-match:" + s)
     return {"single_chars": 0x110000, "bad_single": bad[:10], "random_strings": n_random, "bad_multi": bad_multi[:10]}
 
 
